@@ -161,6 +161,52 @@ theorem block_conserves (rules : Rules) (prices : List Nat) (now : Int) (accts :
       rw [this] at h
       exact ih cur cur' fees hrest h
 
+/-- the layered execution of a block (one `TState` over the parent storage) and the flat
+sequential one agree on the visible state and the fees -/
+theorem runBlockB_visible (rules : Rules) (prices : List Nat) (now : Int) :
+    ∀ (txs : List ((Key → Nat) × Tx)) (b : Block),
+    (runBlockB rules prices now txs b).1.visible = (runBlock rules prices now txs b.visible).1 ∧
+    (runBlockB rules prices now txs b).2 = (runBlock rules prices now txs b.visible).2 ∧
+    (runBlockB rules prices now txs b).1.parent = b.parent := by
+  intro txs
+  induction txs with
+  | nil => intro b; simp [runBlockB, runBlock]
+  | cons p rest ih =>
+    intro b
+    obtain ⟨scope, tx⟩ := p
+    have hv := processTxB_visible rules .morpheus prices now scope tx b
+    simp only [runBlockB, runBlock]
+    rcases hB : processTxB rules .morpheus prices now scope tx b with ⟨b', o⟩
+    rcases hP : processTx rules .morpheus prices now scope tx b.visible with ⟨c', o'⟩
+    rw [hB, hP] at hv
+    simp only at hv
+    obtain ⟨h1, h2, h3⟩ := hv
+    subst h2
+    have := ih b'
+    rw [h1] at this
+    cases o with
+    | done res => simp only; exact ⟨this.1, by rw [this.2.1], by rw [this.2.2, h3]⟩
+    | preErr e => simp only; exact ⟨this.1, this.2.1, by rw [this.2.2, h3]⟩
+    | execErr e => simp only; exact ⟨this.1, this.2.1, by rw [this.2.2, h3]⟩
+
+/-- **C06 (d)** the block on the layered state (views committed one after another into one block
+diff over the same parent storage, as `Processor`/`Builder` do): the sum of all balances visible
+after the block (block diff over parent) equals the sum in the parent storage minus the fees
+charged in the block — including accounts emptied by one transaction (record removed) and
+refilled by a later one to exactly their pre-block balance. -/
+theorem block_conserves_layers (rules : Rules) (prices : List Nat) (now : Int) (accts : List Addr)
+    (hnd : accts.Nodup) (txs : List ((Key → Nat) × Tx)) (parent : Store)
+    (hall : ∀ p ∈ txs, p.2.sponsor ∈ accts ∧ ∃ actor ∈ accts, IsTransfers actor accts p.2.actions) :
+    total (runBlockB rules prices now txs { parent }).1.visible accts
+      + (runBlockB rules prices now txs { parent }).2.sum = total parent accts ∧
+    (runBlockB rules prices now txs { parent }).1.parent = parent := by
+  have hv := runBlockB_visible rules prices now txs { parent }
+  have hvis : ({ parent } : Block).visible = parent := by funext k; simp [Block.visible]
+  rw [hvis] at hv
+  refine ⟨?_, hv.2.2⟩
+  rw [hv.1, hv.2.1]
+  exact block_conserves rules prices now accts hnd txs parent _ _ hall rfl
+
 /-! ## non-vacuity: the former C04/C06 witness — two full-balance self-transfers in one tx -/
 def a1 : Addr := [1]
 def wStore : Store := upd (fun _ => none) (bkey a1) (some (encU64 110))
